@@ -10,7 +10,8 @@
            text_too_long = [line for line in caption_text.split("\n") if len(line) > 32]
            lines_too_long[caption_start].extend(text_too_long)           # after fix #5
        msg = ""
-       for key in lines_too_long:
+       if bool(lines_too_long.keys()):            # (no effect on the outcome: an empty dict gives an empty loop)
+        for key in lines_too_long:
            if lines_too_long[key]:
                msg += f"around {key} - "
                for line in lines_too_long[key]:
